@@ -282,14 +282,14 @@ Section Sign.
     destruct (t_act x) as [sh aps com rate crate | sh aps com rate crate sp | aps rate | sh aps | post pre io];
       cbn [valid_action] in Hx.
     - vsplit Hx. apply Qcltb_true in Hx.
-      wstep (wp_gez_mul sh _ (Qclt_le_weak _ _ Hx) (Qclt_le_weak _ _ Hsa)). intros b Hb.
+      wstep (wp_gez_div sh _ (Qclt_le_weak _ _ Hx) Hsa). intros b Hb.
       wstep (wp_gez_add (sc_eop s) b He Hb). intros eop Heop.
       wstep (wp_gez_add _ b Hold Hb). intros na Hna.
       wstep (wp_gez_add (sc_acq s) b Ha Hb). intros acq Hacq.
       apply IH; [exact Hadj|]. split; [exact Heop|]. split; [exact Hacq|].
       cbn [sc_active]. apply active_update; assumption.
     - vsplit Hx. apply Qcltb_true in Hx.
-      wstep (wp_gez_mul sh _ (Qclt_le_weak _ _ Hx) (Qclt_le_weak _ _ Hsa)). intros b Hb.
+      wstep (wp_gez_div sh _ (Qclt_le_weak _ _ Hx) Hsa). intros b Hb.
       wstep wp_sub. intros eop _. destruct (Qcltb_spec eop 0) as [|Hn1]; [exact I|].
       wstep wp_sub. intros na _. destruct (Qcltb_spec na 0) as [|Hn2]; [exact I|].
       apply IH; [exact Hadj|]. split; [apply Qcnot_lt_le; exact Hn1|]. split; [exact Ha|].
@@ -298,7 +298,7 @@ Section Sign.
     - apply IH; [exact Hadj | repeat split; assumption].
     - vsplit Hx. apply Qcltb_true in Hx. apply Qcltb_true in V.
       wstep (wp_split_factor post pre V). intros f Hf.
-      wstep (wp_pos_div (adj_of (t_af x) adj) f (Qclt_not_eq' _ Hf)). intros nsa Hnsa.
+      wstep (wp_pos_mul (adj_of (t_af x) adj) f). intros nsa Hnsa.
       apply IH; [apply adj_pos_update; assumption | repeat split; assumption].
   Qed.
 
